@@ -423,3 +423,77 @@ pub fn replay(w: &str) -> Vec<Violation> {
     }
     all
 }
+
+/// C04 overshoot clause, decided on a parametric family (the constant 384 is far
+/// beyond any exhaustive history depth): N inserts without sync() on the sync
+/// cache, for every N x key pattern x housekeeping regime x capacity of the family;
+/// after each insert the number of entries iteration yields is at most
+/// capacity + write queue size + 1, and after maintenance the resident weight is
+/// within capacity again.
+pub fn overshoot() -> String {
+    let t0 = Instant::now();
+    let hasher = make_hasher(HashKind::Spread);
+    let mut states = 0u64;
+    let mut transitions = 0u64;
+    let mut viols: Vec<Violation> = Vec::new();
+    let mut sigs: HashSet<String> = HashSet::new();
+    let mut samples = Vec::new();
+    let mut max_seen = 0usize;
+    for n in [63usize, 64, 65, 383, 384, 385, 449, 800] {
+        for keys in [1usize, 2, 20] {
+            for beyond in [true, false] {
+                for cap in [0u64, 1, 10] {
+                    states += 1;
+                    let cfg = Cfg { kind: Kind::S, cap: Some(cap), beyond, nkeys: 20, ..Cfg::default() };
+                    tracker().reset();
+                    let mut sut = Sut::new(&cfg, hasher);
+                    let w = format!("overshoot|N={n},keys={keys},beyond={},cap={cap}", beyond as u8);
+                    if samples.len() < 3 {
+                        samples.push(w.clone());
+                    }
+                    let r = std::panic::catch_unwind(std::panic::AssertUnwindSafe(|| {
+                        let mut worst = 0usize;
+                        for i in 0..n {
+                            sut.apply(&cfg, Op::Ins((i % keys) as u8, 1), i as u32 + 1);
+                            if let Obs::Items(items) = sut.apply(&cfg, Op::Iter, 0) {
+                                worst = worst.max(items.len());
+                            }
+                        }
+                        sut.apply(&cfg, Op::Sync, 0);
+                        sut.apply(&cfg, Op::Sync, 0);
+                        let s = sut.snapshot();
+                        (worst, s.entries.iter().map(|e| e.weight as u64).sum::<u64>(), s.write_ops.len())
+                    }));
+                    transitions += 2 * n as u64;
+                    match r {
+                        Ok((worst, total, pending)) => {
+                            max_seen = max_seen.max(worst);
+                            if worst as u64 > cap + 384 + 1 {
+                                if sigs.insert("overshoot".into()) {
+                                    viols.push(Violation { prop: "C04", sig: "S:overshoot-beyond-write-queue".into(), detail: format!("{worst} entries visible with max_capacity {cap}: more than capacity + 384 queued writes + 1"), witness: w.clone() });
+                                }
+                            }
+                            if total > cap && pending == 0 {
+                                if sigs.insert("after".into()) {
+                                    viols.push(Violation { prop: "C04", sig: "S:resident-weight-above-capacity:after-burst".into(), detail: format!("after the burst and sync(): resident weight {total} > max_capacity {cap}"), witness: w.clone() });
+                                }
+                            }
+                        }
+                        Err(p) => {
+                            if sigs.insert("panic".into()) {
+                                viols.push(Violation { prop: "C08", sig: "S:panic:burst".into(), detail: panic_msg(&p), witness: w.clone() });
+                            }
+                        }
+                    }
+                }
+            }
+        }
+    }
+    format!(
+        "{{\"engine\":\"overshoot\",\"spec\":\"N in 63..800 x keys 1,2,20 x regime x cap 0,1,10\",\"states\":{states},\"transitions\":{transitions},\"depth_done\":800,\"capped\":false,\"outcomes\":{max_seen},\"viol_total\":{},\"violations\":{},\"samples\":{},\"wall_s\":{:.3}}}",
+        viols.len(),
+        jlist(&viols.iter().map(|v| v.to_json()).collect::<Vec<_>>()),
+        jlist(&samples.iter().map(|s| jstr(s)).collect::<Vec<_>>()),
+        t0.elapsed().as_secs_f64()
+    )
+}
